@@ -129,33 +129,47 @@ fn shape_taking<T: Default + Clone + 'static>(out: &mut Out, es: usize) {
             }
             // reshape of a small matrix: everything but the current size is SizeMismatch
             for order in ORDERS {
-                let mut m = mk(order, 2, 3, |_| T::default());
-                let op = format!("c08 reshape {} 2 3 {r} {c}", ord_ch(order));
-                out.announce(&op);
-                let res = catch(|| m.reshape((r, c)).map(|_| ()));
-                let obs = match res {
-                    None => "panic".to_string(),
-                    Some(Err(e)) => format!("err {}", err_name(e)),
-                    Some(Ok(())) => format!("ok {} {} {}", m.nrows(), m.ncols(), m.size()),
-                };
-                let w = if r as u128 * c as u128 == 6 { Ok((r, c, 6u128)) } else { Err("SizeMismatch") };
-                expect(out, &op, &obs, w);
-                out.observe(&obs);
+                // receivers: a 2x3 matrix and the three kinds of empty matrix (for which an
+                // overflowing request must not be mistaken for "size 0")
+                for (r0, c0) in [(2usize, 3usize), (0, 0), (0, 5), (3, 0)] {
+                    let mut m = mk(order, r0, c0, |_| T::default());
+                    let op = format!("c08 reshape {} {r0} {c0} {r} {c}", ord_ch(order));
+                    out.announce(&op);
+                    let res = catch(|| m.reshape((r, c)).map(|_| ()));
+                    let obs = match res {
+                        None => "panic".to_string(),
+                        Some(Err(e)) => format!("err {}", err_name(e)),
+                        Some(Ok(())) => format!("ok {} {} {}", m.nrows(), m.ncols(), m.size()),
+                    };
+                    let n0 = (r0 * c0) as u128;
+                    let w = if r as u128 * c as u128 == n0 { Ok((r, c, n0)) } else { Err("SizeMismatch") };
+                    expect(out, &op, &obs, w);
+                    if (m.nrows() as u128) * (m.ncols() as u128) != m.size() as u128 {
+                        out.oracle_fail(&format!("{op}: matrix is now {}x{} with {} elements", m.nrows(), m.ncols(), m.size()));
+                    }
+                    out.observe(&obs);
+                }
             }
             // the two decision functions themselves, through the hooks, on the full grid
             let op = format!("c08 hook_shape R {r} {c}");
             out.announce(&op);
-            let obs = match matreex::verif_hooks::try_to_axis_shape(r, c, Order::RowMajor) {
-                Ok((a, b)) => format!("ok {a} {b}"),
-                Err(e) => format!("err {}", err_name(e)),
+            let obs = match catch(|| matreex::verif_hooks::try_to_axis_shape(r, c, Order::RowMajor)) {
+                None => "panic".to_string(),
+                Some(Ok((a, b))) => format!("ok {a} {b}"),
+                Some(Err(e)) => format!("err {}", err_name(e)),
             };
+            let w = if (r as u128) * (c as u128) > usize::MAX as u128 { "err SizeOverflow".to_string() } else { format!("ok {r} {c}") };
+            if obs != w {
+                out.oracle_fail(&format!("{op}: expected `{w}`, implementation gave `{obs}`"));
+            }
             out.observe(&obs);
         }
         let op = format!("c08 hook_check_size {es} {r}");
         out.announce(&op);
-        let obs = match matreex::verif_hooks::check_size::<T>(r) {
-            Ok(n) => format!("ok {n}"),
-            Err(e) => format!("err {}", err_name(e)),
+        let obs = match catch(|| matreex::verif_hooks::check_size::<T>(r)) {
+            None => "panic".to_string(),
+            Some(Ok(n)) => format!("ok {n}"),
+            Some(Err(e)) => format!("err {}", err_name(e)),
         };
         let w = if es as u128 * r as u128 > isize::MAX as u128 { "err CapacityOverflow".to_string() } else { format!("ok {r}") };
         if obs != w {
